@@ -250,6 +250,7 @@ func positions(exp *exec.Expect) (fieldPaths, elemPaths []string) {
 }
 
 func run(c *core.Child) {
+	goKinds(c)
 	type src struct {
 		m    *model.Schema
 		opts func(r *core.RNG) typedoc.Options
